@@ -83,6 +83,30 @@ func CheckHistory(o *Outcome) []Viol {
 			bad("not-serializable", "a multi-document insert is only partly in the log", fmt.Sprintf("%s: %d of 3", t, n))
 		}
 	}
+	// writes made inside a helper callback (WithTransaction / UseSession) whose transaction was
+	// abandoned — the callback failed, panicked, called Goexit, aborted, or simply did not commit —
+	// must not be in the log
+	abandoned := func(h *HRec) bool {
+		if !h.InWtx || h.Actor-1 >= len(o.Sc.Actors) || h.Op >= len(o.Sc.Actors[h.Actor-1]) {
+			return false
+		}
+		op := o.Sc.Actors[h.Actor-1][h.Op]
+		switch op.Kind {
+		case "usess":
+			return op.Fault != ""
+		case "wtx":
+			switch op.Fault {
+			case "cbPanic", "cbErr", "goexit", "cbAbort":
+				return true
+			}
+		}
+		return false
+	}
+	for tag, h := range byTag {
+		if _, logged := pos[tag]; logged && abandoned(h) {
+			bad("not-serializable", "a write of an abandoned helper transaction is in the log", tag)
+		}
+	}
 	// acknowledged vs logged
 	for tag, h := range byTag {
 		_, logged := pos[tag]
@@ -113,7 +137,7 @@ func CheckHistory(o *Outcome) []Viol {
 		if w.Kind == "scommit" && w.Res.Cls == "ok" {
 			commitsOf[w.Sess] = append(commitsOf[w.Sess], w)
 		}
-		if w.Kind == "wtx" {
+		if w.Kind == "wtx" || w.Kind == "usess" {
 			wtxOf[[2]int{w.Actor, w.Op}] = w
 		}
 	}
